@@ -39,6 +39,9 @@ CHECKS["C10"] = ("seeded concurrent stress under the race detector with a sequen
 CHECKS["C11"] = ("differential testing of generated HTTP handlers: concurrent (real goroutines / gated two-request interleavings) vs the same request served alone on a fresh VM",
          "Generated route handlers reading request inputs through the request object and the superglobals; engine (i) 2..64 requests in flight (GOMAXPROCS varied, -race build in thorough), engine (ii) every placement of a gate between two reads with the other request run to completion in between; status, headers and body must equal the alone run.",
          "In-process mux with httptest recorders; handlers avoid by-design shared state; the parallel engine does not own the schedule, the gated engine does.")
+CHECKS["C12"] = ("model-based stateful testing: exhaustive short histories + rapid histories over base and temporary VMs, every lookup on every VM compared with a set model after every step",
+         "Histories of define (by parsing source through the VM's parser, or by Add*) / probing script / discard over one base VM and up to four temporary VMs with colliding names; after each step every VM answers GetClass / GetInterface / GetFunc / LoadPkg (and class_exists / function_exists / new / call) for every name and must agree with Base U Local[i].",
+         "Only resolvability is asserted for names defined on several VMs; intended write-through sharing (file cache, constants, globals) is not modelled.")
 NOT_YET = {
 }
 
